@@ -155,6 +155,9 @@ class HedSchemaUnitSection(HedSchemaSection):
         """We need to mark duplicate units(units with unitSymbol are case sensitive, while others are not."""
         if not new_entry.has_attribute(HedKey.UnitSymbol):
             name_key = name_key.casefold()
+        if name_key not in self.all_names:
+            # The same spelling may be stored under the other convention (a unit symbol keeps its letter case).
+            name_key = next((key for key, entry in self.all_names.items() if entry.name == new_entry.name), name_key)
         return super()._check_if_duplicate(name_key, new_entry)
 
     def __getitem__(self, key):
